@@ -11,10 +11,10 @@ m = re.search(r"NEEDS:\s*(.+)", notes)
 needs = m.group(1).strip().strip("*`").strip() if m else ""
 res = json.load(open(os.path.join(d, "result.json"))) if os.path.exists(os.path.join(d, "result.json")) else {}
 num = int(i.split("-m")[1])
-rnd = {5: 4, 6: 4, 7: 5, 8: 5, 9: 6, 10: 6}.get(num, 6)
+rnd = {5: 4, 6: 4, 7: 5, 8: 5, 9: 6, 10: 6, 11: 7, 12: 7}.get(num, 7)
 wt = "/tmp/wt%d" % rnd
 meta = dict(id=i, breaks_property=i.split("-")[0], needs_to_manifest=needs[:400], round=rnd,
-            origin={4: "fourth", 5: "fifth", 6: "sixth"}[rnd] + " round: written by an independent sub-agent that saw only the text of the property, its code anchors, the triggers of the earlier changes (to avoid repeating them) and a scratch worktree of /repo; two changes per property; made after the " + {4: "third", 5: "fourth", 6: "fifth"}[rnd] + " strengthening",
+            origin={4: "fourth", 5: "fifth", 6: "sixth", 7: "seventh"}[rnd] + " round: written by an independent sub-agent that saw only the text of the property, its code anchors, the triggers of the earlier changes (to avoid repeating them) and a scratch worktree of /repo; two changes per property; made after the " + {4: "third", 5: "fourth", 6: "fifth", 7: "sixth"}[rnd] + " strengthening",
             confirmed_by="tools/seeded_confirm.sh (clean build, patch applies, suite = baseline, demo.sh passes without and fails with the change)",
             ran=["tools/seeded_confirm.sh %s/%s %s/%s-out/%s %s" % (wt, i.split("-")[0], wt, i.split("-")[0], "A" if num % 2 == 1 else "B", i), "tools/seeded_eval_par.py " + i],
             detected_by_check=bool(res.get("detected")), concrete_failing_input=bool(res.get("concrete")),
